@@ -13,7 +13,7 @@ from vlib import common
 from vlib.common import Run, rng_for
 
 PROP = "C03"
-RULE = ("case = (history of 1-12 events from {worker exit with status 0/1/3/4/255 or by signal KILL/TERM/SEGV/ABRT, TTIN, "
+RULE = ("case = (history of 1-12 events from {worker exit with status 0/1/3/4/255 or by signal KILL/TERM/SEGV/ABRT/unnamed and real-time signals, with and without the core-dump flag, TTIN, "
         "TTOU, HUP with a new worker count}, inter-event gaps {0, <1 tick, several ticks}, initial workers 1-4, timeout in "
         "{0,2,30}, worker policies (dies right after fork, ignores TERM, slow TERM), SIGCHLD schedule = tuple of injection "
         "points at which deaths happened), plus a directed class (a fresh worker dies 0-4 injection points after fork() returned, "
@@ -35,7 +35,8 @@ def gen_scenario(rng, small=False):
         if k < 0.45:
             ev = {"type": "worker_exit", "which": rng.randint(0, 5)}
             if rng.random() < 0.5:
-                ev["signal"] = rng.choice([9, 15, 11, 6, 3, 4, 1, 2, 7, 10])
+                # (also signals that have no name - 32, 33, the real-time range - and wait statuses with the core-dump flag set)
+                ev["signal"] = rng.choice([9, 15, 11, 6, 3, 4, 1, 2, 7, 10, 9, 15, 35, 64, 32, 34, 11 | 0x80, 6 | 0x80, 3 | 0x80])
             else:
                 ev["status"] = rng.choice([0, 1, 1, 255, 3, 4] if rng.random() < 0.25 else [0, 1, 255])
                 if ev["status"] in (3, 4):
@@ -105,7 +106,7 @@ def gen_early_death_scenario(rng):
         if k < 0.4:
             ev = {"type": "worker_exit", "which": rng.randint(0, 5)}
             if rng.random() < 0.5:
-                ev["signal"] = rng.choice([9, 15, 11, 6])
+                ev["signal"] = rng.choice([9, 15, 11, 6, 35, 11 | 0x80])
             else:
                 ev["status"] = rng.choice([0, 1, 255])
         elif k < 0.6:
